@@ -46,12 +46,13 @@ theorem StoreExt.ofPrefix {S S' : Array Cell} (hs : S.size ≤ S'.size)
 
 theorem Ext2.refl (L : Laws2 D) (h : H) (S : Array Cell) : Ext2 D h S h S :=
   have _ := L
-  ⟨StoreExt.refl _, fun _ _ x => x, fun _ x => ⟨x, fun _ => rfl, rfl, rfl⟩, fun _ _ _ x => x, fun _ _ _ _ x => x,
-   fun _ _ v x y => ⟨v, x, y⟩⟩
+  ⟨StoreExt.refl _, fun _ _ x => x, fun _ _ x => x, fun _ x => ⟨x, fun _ => rfl, rfl, rfl⟩, fun _ _ _ x => x,
+   fun _ _ _ _ x => x, fun _ _ v x y => ⟨v, x, y⟩⟩
 
 theorem Ext2.trans {h1 h2 h3 : H} {S1 S2 S3 : Array Cell} (a : Ext2 D h1 S1 h2 S2) (b : Ext2 D h2 S2 h3 S3) :
     Ext2 D h1 S1 h3 S3 := by
-  refine ⟨a.store.trans b.store, fun v w x => b.vr v w (a.vr v w x), fun l hl => ?_,
+  refine ⟨a.store.trans b.store, fun v w x => b.vr v w (a.vr v w x), fun v d x => b.datum v d (a.datum v d x),
+    fun l hl => ?_,
     fun v l e x => b.clos v l e (a.clos v l e x), fun e k p q x => b.envPtr e k p q (a.envPtr e k p q x),
     fun e k v x y => ?_⟩
   · obtain ⟨a1, a2, a3, a4⟩ := a.code l hl
@@ -114,7 +115,7 @@ theorem All2.vr2_mono {W W' : World} {h h' : H} {S S' : Array Cell} {vs : List V
 theorem Loads2.ext {em : List (Text × Source)} {h h' : H} {S S' : Array Cell} (x : Ext2 D h S h' S')
     {bc : BC} {v : VCell} (l : Loads2 D em h S bc v) : Loads2 D em h' S' bc v := by
   cases bc with
-  | datum d => exact ⟨l.1, fun w hw => x.vr _ _ (l.2 w hw)⟩
+  | datum d => exact ⟨l.1, x.datum _ _ l.2⟩
   | lambda id =>
     refine ⟨l.1, fun lamM hl => ?_⟩
     obtain ⟨a1, a2⟩ := l.2 lamM hl
@@ -142,7 +143,8 @@ theorem Inv2.frame {W : World} {h h' : H} {σ σ' : SSt} (i : Inv2 D W h σ)
     (hgg : ∀ m, ops.globGet h' m = ops.globGet h m)
     (hloc : ∀ e n l, W e n l → ops.envGet h' e n = ops.envGet h e n ∧ σ'.store[l]? = σ.store[l]?) :
     Inv2 D W h' σ' := by
-  refine ⟨fun y w hn hl => ?_, fun y hn hl => ?_, hx, i.loaded.ext x, i.wfun, i.winj, fun e n l hW => ?_⟩
+  refine ⟨fun y w hn hl => ?_, fun y hn hl => ?_, hx, fun y hy => hg ▸ i.gset y hy, i.loaded.ext x, i.wfun, i.winj,
+    fun e n l hW => ?_⟩
   · rw [hgg]; exact (i.bound y w hn (hg ▸ hl)).mono x (World.le_refl _)
   · rw [hgg]; exact i.unbound y hn (hg ▸ hl)
   · obtain ⟨v, w, h1, h2, h3, h4⟩ := i.vars e n l hW
